@@ -69,6 +69,13 @@ const POOLS: [&[char]; 8] = [
 ];
 
 fn gen_pass(u: &mut U) -> (String, &'static str) {
+    if u.ratio(1, 25) {
+        // long passphrases (beyond any plausible fixed-size salt buffer: 120..2000 scalars)
+        let n = [120usize, 128, 129, 247, 248, 249, 255, 256, 257, 1000, 2000][u.below(11)];
+        let pool = POOLS[u.below(POOLS.len())];
+        let ascii = u.bool();
+        return ((0..n).map(|i| if ascii { (b'a' + (i % 26) as u8) as char } else { pool[(i * 7 + n) % pool.len()] }).collect(), "long");
+    }
     match u.below(12) {
         0 => (String::new(), "empty"),
         1 => ("TREZOR".into(), "ascii"),
@@ -157,6 +164,9 @@ fn judge(c: &Case, cls: &mut Classifier) -> Verdict {
     }
     if c.passphrase.is_empty() {
         cls.label("empty-passphrase");
+    }
+    if c.passphrase.chars().count() >= 120 {
+        cls.label("long-passphrase");
     }
     if (!c.passphrase.is_empty() && c.passphrase != "TREZOR") || !matches!(words, 12 | 24) {
         cls.nontrivial(&(canonical.as_str(), normalised.as_str()));
@@ -314,6 +324,7 @@ pub fn run(ctx: &mut Ctx) {
     let total = n as u64;
     ctx.floor("passphrase-changed-by-nfkd", total, 0.2);
     ctx.floor("astral", total, 0.05);
+    ctx.floor("long-passphrase", total, 0.02);
     ctx.floor("layout-pair", total, 0.5);
     ctx.floor_abs("nfkd-equivalent-pair", 700);
     ctx.floor_abs("non-equivalent-pair", 100);
